@@ -491,10 +491,20 @@ class CryptographyEngine(api.CryptographicEngine):
                 if iv_nonce is None:
                     iv_nonce = os.urandom(algorithm.block_size // 8)
                     return_iv_nonce = True
-                if is_gcm_mode:
-                    mode = mode(iv_nonce, None, min_tag_length=auth_tag_length)
-                else:
-                    mode = mode(iv_nonce)
+                try:
+                    if is_gcm_mode:
+                        mode = mode(
+                            iv_nonce,
+                            None,
+                            min_tag_length=auth_tag_length
+                        )
+                    else:
+                        mode = mode(iv_nonce)
+                except (TypeError, ValueError) as e:
+                    raise exceptions.InvalidField(
+                        "Invalid IV/nonce or tag length for the cipher "
+                        "mode: {0}".format(e)
+                    )
             else:
                 mode = mode()
 
@@ -510,11 +520,16 @@ class CryptographyEngine(api.CryptographicEngine):
             )
 
         # Encrypt the plain text
-        cipher = ciphers.Cipher(algorithm, mode, backend=default_backend())
-        encryptor = cipher.encryptor()
-        if auth_additional_data is not None:
-            encryptor.authenticate_additional_data(auth_additional_data)
-        cipher_text = encryptor.update(plain_text) + encryptor.finalize()
+        try:
+            cipher = ciphers.Cipher(algorithm, mode, backend=default_backend())
+            encryptor = cipher.encryptor()
+            if auth_additional_data is not None:
+                encryptor.authenticate_additional_data(auth_additional_data)
+            cipher_text = encryptor.update(plain_text) + encryptor.finalize()
+        except (TypeError, ValueError) as e:
+            raise exceptions.CryptographicFailure(
+                "The encryption failed: {0}".format(e)
+            )
 
         result = {'cipher_text': cipher_text}
         if return_iv_nonce:
@@ -837,23 +852,36 @@ class CryptographyEngine(api.CryptographicEngine):
                     raise exceptions.InvalidField(
                         "IV/nonce is required."
                     )
-                if is_gcm_mode:
-                    mode = mode(
-                        iv_nonce,
-                        tag=auth_tag,
-                        min_tag_length=len(auth_tag)
+                try:
+                    if is_gcm_mode:
+                        mode = mode(
+                            iv_nonce,
+                            tag=auth_tag,
+                            min_tag_length=len(auth_tag)
+                        )
+                    else:
+                        mode = mode(iv_nonce)
+                except (TypeError, ValueError) as e:
+                    raise exceptions.InvalidField(
+                        "Invalid IV/nonce or tag for the cipher mode: "
+                        "{0}".format(e)
                     )
-                else:
-                    mode = mode(iv_nonce)
             else:
                 mode = mode()
 
         # Decrypt the plain text
-        cipher = ciphers.Cipher(algorithm, mode, backend=default_backend())
-        decryptor = cipher.decryptor()
-        if auth_additional_data is not None:
-            decryptor.authenticate_additional_data(auth_additional_data)
-        plain_text = decryptor.update(cipher_text) + decryptor.finalize()
+        try:
+            cipher = ciphers.Cipher(algorithm, mode, backend=default_backend())
+            decryptor = cipher.decryptor()
+            if auth_additional_data is not None:
+                decryptor.authenticate_additional_data(auth_additional_data)
+            plain_text = decryptor.update(cipher_text) + decryptor.finalize()
+        except (TypeError, ValueError, errors.InvalidTag) as e:
+            raise exceptions.CryptographicFailure(
+                "The decryption failed: {0}".format(
+                    e if str(e) else type(e).__name__
+                )
+            )
 
         # Unpad the plain text if needed (separate methods for testing
         # purposes)
@@ -861,12 +889,17 @@ class CryptographyEngine(api.CryptographicEngine):
                 enums.BlockCipherMode.CBC,
                 enums.BlockCipherMode.ECB
         ]:
-            plain_text = self._handle_symmetric_padding(
-                self._symmetric_key_algorithms.get(decryption_algorithm),
-                plain_text,
-                padding_method,
-                undo_padding=True
-            )
+            try:
+                plain_text = self._handle_symmetric_padding(
+                    self._symmetric_key_algorithms.get(decryption_algorithm),
+                    plain_text,
+                    padding_method,
+                    undo_padding=True
+                )
+            except ValueError as e:
+                raise exceptions.CryptographicFailure(
+                    "The decryption failed: {0}".format(e)
+                )
 
         return plain_text
 
